@@ -41,6 +41,38 @@ func (e *Engine) runLemmas(prop string) {
 					panic(r)
 				}
 			}()
+			if l.Measure != nil {
+				// strong induction on the measure: the lemma may be assumed for all
+				// instances with a strictly smaller non-negative measure
+				q, ok := l.E.(*Quant)
+				if !ok || !q.Forall {
+					specFail("a lemma with a measure must be a universally quantified formula")
+				}
+				sub := map[string]Expr{}
+				for _, qv := range q.Vars {
+					s := SInt
+					switch qv.Sort {
+					case "U":
+						s = SU
+					case "Seq":
+						s = SSeq
+					case "Bool":
+						s = SBool
+					}
+					n := fc.declare(st, "ind_"+qv.Name, s.SMT())
+					sc.vars[qv.Name+"$0"] = Val{T: n, S: s}
+					sub[qv.Name] = &Ident{qv.Name + "$0"}
+				}
+				m0 := substitute(l.Measure, sub)
+				ih := &Quant{Forall: true, Vars: q.Vars, Triggers: q.Triggers,
+					Body: &Binary{"==>", &Binary{"&&", &Binary{">=", l.Measure, &IntLit{"0"}}, &Binary{"<", l.Measure, m0}}, q.Body}}
+				ihv := sc.eval(ih)
+				st.pc = append(st.pc, ihv.T)
+				v := sc.eval(substitute(q.Body, sub))
+				sc.want(v, SBool, l.E)
+				goal = v.T
+				return
+			}
 			v := sc.eval(l.E)
 			sc.want(v, SBool, l.E)
 			goal = v.T
